@@ -132,6 +132,10 @@ def selOf : ExecDef → List Selection
   | .frag f => f.sel
   | .imp _ => []
 
+/-- the number of values tested per definition shrinks with the size of its emitted type (a type with many
+    branches makes every membership test expensive) -/
+def capFor (cap : Nat) (t : Ty) : Nat := max 40 (cap * 3000 / max 3000 t.size)
+
 /-- all responses enumerated for a definition: (runtime type, σ, value) -/
 def enumFor (c : Ctx) (x : ExecDef) (cap : Nat) : List (Name × List (Name × Bool) × J) :=
   let roots := rootsOf c x
@@ -142,7 +146,7 @@ def oracleC01 (c : Ctx) (cap : Nat) : Sexp := Id.run do
   let mut n := 0
   for (x, _, t) in c.pairs do
     let mut k := 0
-    for (r, σ, v) in enumFor c x cap do
+    for (r, σ, v) in enumFor c x (capFor cap t) do
       n := n + 1
       k := k + 1
       -- sanity of the enumerator (on a sample): every enumerated value is an Exec response
@@ -156,10 +160,10 @@ def oracleC02 (c : Ctx) (cap : Nat) : Sexp := Id.run do
   let mut n := 0
   let sc := specCtx c
   for (x, _, t) in c.pairs do
-    let base := (enumFor c x cap).map (·.2.2)
+    let base := (enumFor c x (capFor cap t)).map (·.2.2)
     let keys := Exec.keysInPlay c.D
     let lits := Exec.litsInPlay c.S
-    for (kind, v) in Exec.mutants keys lits base cap do
+    for (kind, v) in Exec.mutants keys lits base (capFor cap t) do
       n := n + 1
       if memReal c v t && !(rootsOf c x).any (fun r => Exec.refLocalMem sc sc.fuel r (selOf x) v) then
         return .list [.atom "counterexample", .list [.atom "op", .str (defName x)], .list [.atom "kind", .str kind],
